@@ -334,3 +334,17 @@ def cond_variant(c, o):
         rest = [n for n, dv in c[2] if dv not in o[1]]
         return (c[1], rest[0]) if len(rest) == 1 else None
     return None
+
+
+
+def loop_sources(ex, paths):
+    """{(loop site, printed collection)} a function iterates over: `for`/`while let` loops (next calls) and the iterator methods
+    the engine analyses as loops (for_each, try_for_each, find, ...)."""
+    out = set()
+    for p in paths:
+        for e in p.events:
+            if e[0] == "call" and re.search(r"iter::Iterator>::next$", e[2]):
+                out.add((e[1], S.fstr(argval(e, 0))[:140]))
+            elif e[0] in ("iter-item", "iter-exhausted"):
+                out.add((e[1], S.fstr(e[3])[:140]))
+    return out
